@@ -7,7 +7,9 @@ impl cbor_event::se::Serialize for VotingProcedures {
         &self,
         serializer: &'se mut Serializer<W>,
     ) -> cbor_event::Result<&'se mut Serializer<W>> {
-        serializer.write_map(cbor_event::Len::Len(self.0.len() as u64))?;
+        // voters without votes are skipped below, so they must not be counted either
+        let voters_with_votes = self.0.values().filter(|votes| !votes.is_empty()).count();
+        serializer.write_map(cbor_event::Len::Len(voters_with_votes as u64))?;
         for (voter, votes) in &self.0 {
             if votes.is_empty() {
                 continue;
